@@ -227,6 +227,11 @@ func (r *Run) Finish(evidenceDir string, cmdline string, stats map[string]any) i
 		fmt.Printf("cannot write evidence: %v\n", err)
 		return 2
 	}
+	if os.Getenv("CADCHECK_DUMP") != "" {
+		for _, o := range r.Obls {
+			fmt.Printf("OBL %s %s | %s | %s | %s | %s\n", r.Prop, o.Rule, o.Construct, o.Pos, o.Verdict, Short(o.By))
+		}
+	}
 	names := make([]string, 0, len(rules))
 	for k := range rules {
 		names = append(names, k)
